@@ -29,10 +29,11 @@ type VerifC23 struct {
 	h  *Handler
 	mu sync.Mutex
 	id map[*requestHandler]int64
+	hs map[int64]*requestHandler
 }
 
 func VerifC23New(chunkSize int, load VerifC23LoadFunc) *VerifC23 {
-	v := &VerifC23{id: map[*requestHandler]int64{}}
+	v := &VerifC23{id: map[*requestHandler]int64{}, hs: map[int64]*requestHandler{}}
 	v.h = &Handler{HandlerOptions: HandlerOptions{location: time.UTC}}
 	v.c = newCache2(v.h, chunkSize, func(ctx context.Context, h *requestHandler, q *queryBuilder, lod data_model.LOD, ret [][]tsSelectRow, retStartIx int) (int, error) {
 		v.mu.Lock()
@@ -64,15 +65,12 @@ func VerifC23New(chunkSize int, load VerifC23LoadFunc) *VerifC23 {
 // stub knows which key it is loading for; the cache key itself is the explicit string `key`.
 func (v *VerifC23) Get(ctx context.Context, reqID int64, user, key string, keyID int64, play int, stepSec, fromSec, toSec int64, force bool) ([][]VerifC23Row, error) {
 	h := &requestHandler{Handler: v.h, accessInfo: accessInfo{user: user}}
+	h.endpointStat.timings.Timings = map[string][]time.Duration{}
 	q := &queryBuilder{cacheKey: key, play: play, numResults: int(keyID)}
 	v.mu.Lock()
 	v.id[h] = reqID
+	v.hs[reqID] = h
 	v.mu.Unlock()
-	defer func() {
-		v.mu.Lock()
-		delete(v.id, h)
-		v.mu.Unlock()
-	}()
 	lod := data_model.LOD{Version: Version6, StepSec: stepSec, FromSec: fromSec, ToSec: toSec, Location: time.UTC}
 	res, err := v.c.Get(ctx, h, q, lod, force)
 	if err != nil {
@@ -85,6 +83,31 @@ func (v *VerifC23) Get(ctx context.Context, reqID int64, user, key string, keyID
 		}
 	}
 	return out, nil
+}
+
+// LoadChunksDone reports whether the loadChunks goroutine of request reqID has run to its end (it reports the
+// "cache-load-chunks" timing to the request's own ServerTimingHeader as its last deferred action).
+func (v *VerifC23) LoadChunksDone(reqID int64) bool {
+	v.mu.Lock()
+	h := v.hs[reqID]
+	v.mu.Unlock()
+	if h == nil {
+		return false
+	}
+	t := &h.endpointStat.timings
+	t.mutex.Lock()
+	defer t.mutex.Unlock()
+	return len(t.Timings["cache-load-chunks"]) > 0
+}
+
+// Forget drops the bookkeeping of a request that has returned and whose load (if any) is done.
+func (v *VerifC23) Forget(reqID int64) {
+	v.mu.Lock()
+	if h := v.hs[reqID]; h != nil {
+		delete(v.id, h)
+		delete(v.hs, reqID)
+	}
+	v.mu.Unlock()
 }
 
 func (v *VerifC23) Invalidate(times []int64, stepSec int64) { v.c.invalidate(times, stepSec) }
